@@ -114,6 +114,30 @@ Proof.
   destruct (RP.complete_in_order boot (encode es) ls Hm Hc) as [H _]. rewrite H. apply decode_encode.
 Qed.
 
+(** what a recording plugin sees (the relay model's log, [ODeliver] entries) is the same prefix: the composition below goes
+    through [delivered], and [delivered] is what the log shows *)
+Theorem log_shows_delivered boot es ls :
+  decode es (R.deliveries (R.log (R.run boot (encode es) ls))) = delivered_events boot es ls.
+Proof.
+  unfold delivered_events. destruct (RP.prefix_always boot (encode es) ls) as [_ [_ H]]. rewrite H. reflexivity.
+Qed.
+
+(** on_end_run is called only after every delivery: once the relay has reached [PEndRun] nothing is delivered any more, so the
+    publications of the registrars for the whole run are those of [pubs_run] on [delivered_events] (init, start, the delivered
+    events in order, then on_end_run).  The [e2e_closed_out_*] theorems below speak of [pubs_run], i.e. they are about runs in
+    which on_end_run IS called (every run whose relay ends; a child killed inside a pipe write never gets there:
+    C10_kill_mid_write_never_ends). *)
+Theorem nothing_delivered_after_end_run boot es ls l :
+  R.main (R.run boot (encode es) ls) = R.PEndRun ->
+  delivered_events boot es (ls ++ [l]) = delivered_events boot es ls.
+Proof.
+  intros H. unfold delivered_events.
+  pose proof (RP.nothing_after_end boot (encode es) ls l H) as Hl.
+  destruct (RP.prefix_always boot (encode es) (ls ++ [l])) as [_ [_ H1]].
+  destruct (RP.prefix_always boot (encode es) ls) as [_ [_ H2]].
+  rewrite <- H1, <- H2, Hl. reflexivity.
+Qed.
+
 (** ---- C09 + C10: what reaches the main process is a well-formed stream cut at some point *)
 
 Lemma wf_prefix_firstn r es k : wf_prefix r es = true -> wf_prefix r (firstn k es) = true.
